@@ -148,6 +148,26 @@ type Setup struct {
 	NewSetIndex int64
 	Activation  int64
 	StartDelta  uint64 // Shuttermint.DKGStartBlockDelta
+	// GenesisN (0 = N): only the first GenesisN keypers are in shuttermint's genesis
+	// configuration; the others first become keypers with the new set
+	GenesisN int
+}
+
+// GenesisMembers are the keypers of shuttermint's genesis configuration.
+func (s Setup) GenesisMembers() []common.Address {
+	m := s.Members()
+	if s.GenesisN > 0 && s.GenesisN < len(m) {
+		m = m[:s.GenesisN]
+	}
+	return m
+}
+
+// GenesisThreshold is the threshold of the genesis configuration.
+func (s Setup) GenesisThreshold() int {
+	if n := len(s.GenesisMembers()); s.T > n {
+		return n
+	}
+	return s.T
 }
 
 // DefaultSetup is the configuration used by the checks.
